@@ -5,7 +5,7 @@
    A sheet is a sequence of tokens  [k |-> kind, s |-> spelling, v |-> bare name, col |-> <<r, g, b>> or <<>>]  written
    with one blank between neighbours (so the simple selectors of a run are joined by descendant
    combinators, or by a child combinator where a `>` stands between them).  Kinds:
-     ident class hash star gt plus tilde comma lbrace rbrace semi colon at lround rround lsq rsq func str num bang cdo cdc
+     ident class hash star nth gt plus tilde comma lbrace rbrace semi colon at lround rround lsq rsq func str num bang cdo cdc
    (plus, tilde: the sibling combinators `+` and `~`, which the library does not implement; they are no selector
    kind, so parse_selector stops in front of them, the rule set fails at the missing `{` and is skipped as an
    invalid rule set - and the reference drops a rule set whose prelude is no selector list it knows)
@@ -33,7 +33,8 @@ EXTENDS Naturals, Sequences, FiniteSets
 Tok(k, s) == [k |-> k, s |-> s, v |-> s, col |-> <<>>]
 Class(name) == [k |-> "class", s |-> "." \o name, v |-> name, col |-> <<>>]
 Hash(name, c) == [k |-> "hash", s |-> "#" \o name, v |-> name, col |-> c]      \* v: the id it names as a selector
-SelKinds == {"ident", "class", "hash", "star"}
+Nth(spelling, a, b) == [k |-> "nth", s |-> spelling, v |-> spelling, col |-> <<a, b>>]   \* :nth-child(an+b) as one token; col: <<a, b>>
+SelKinds == {"ident", "class", "hash", "star", "nth"}
 Openers == {"lround", "func", "lsq", "lbrace"}
 Closers == {"rround", "rsq", "rbrace"}
 CloserOf(k) == CASE k \in {"lround", "func"} -> "rround" [] k = "lsq" -> "rsq" [] k = "lbrace" -> "rbrace"
@@ -197,7 +198,7 @@ Compound(t, comb) ==
    star |-> t.k = "star",
    cls |-> IF t.k = "class" THEN << t.v >> ELSE <<>>,
    id |-> IF t.k = "hash" THEN t.v ELSE "",
-   nth |-> <<>>]
+   nth |-> IF t.k = "nth" THEN t.col ELSE <<>>]
 AbsSel(run) == LET ix == SelectSeq([m \in 1..Len(run) |-> m], LAMBDA m : run[m].k # "gt") IN
                [q \in 1..Len(ix) |-> Compound(run[ix[q]], IF q = 1 THEN "" ELSE IF run[ix[q] - 1].k = "gt" THEN "child" ELSE "desc")]
 \* rule sets without a style, or without a selector, leave no trace (do_add_css)
